@@ -104,14 +104,15 @@ func (c02) Gen(rng *rand.Rand, tier string, idx int) Case {
 		c.Cfg = [][]string{{"kind", "tumbling"}, {"mode", "et"}, {"size", itoa(size)}, {"ooo", itoa(ooo)}, {"late", itoa(late)}, {"now", "0"}}
 		genLateOps(rng, &c, size, ooo, late)
 		c.Stat = append(c.Stat, "tumbling", "lateness="+map[bool]string{true: "0", false: ">0"}[late == 0])
-	case k < 7: // sliding, lateness 0 (late-update path of the sliding window is not modelled)
+	case k < 7: // sliding (late-update target chosen by Go map order: the driver takes the observed target as witness)
 		p := [][2]int64{{2, 1}, {3, 2}, {5, 5}, {2, 3}}[rng.Intn(4)]
 		u := []int64{1, 10, 1000}[rng.Intn(3)]
 		size, slide := p[0]*u, p[1]*u
 		ooo := []int64{0, slide, 2*size + 1}[rng.Intn(3)]
-		c.Cfg = [][]string{{"kind", "sliding"}, {"mode", "et"}, {"size", itoa(size)}, {"slide", itoa(slide)}, {"ooo", itoa(ooo)}, {"late", "0"}, {"now", "0"}}
-		genLateOps(rng, &c, slide, ooo, 0)
-		c.Stat = append(c.Stat, "sliding")
+		late := []int64{0, 1, slide, 3 * size}[rng.Intn(4)]
+		c.Cfg = [][]string{{"kind", "sliding"}, {"mode", "et"}, {"size", itoa(size)}, {"slide", itoa(slide)}, {"ooo", itoa(ooo)}, {"late", itoa(late)}, {"now", "0"}}
+		genLateOps(rng, &c, slide, ooo, late)
+		c.Stat = append(c.Stat, "sliding", "lateness="+map[bool]string{true: "0", false: ">0"}[late == 0])
 	default: // session with lateness
 		timeout := []int64{10, 1000, 3}[rng.Intn(3)]
 		ooo := []int64{0, timeout / 2, timeout, 3 * timeout}[rng.Intn(4)]
